@@ -484,6 +484,51 @@ func runC16(c *Ctx) {
 				}
 			})
 		}
+		// precedence: process-local variables win over project variables - when a fresh map is filled by copies,
+		// the copy of the extra (per-process) parameter comes after the copy of the Templater's own variables
+		{
+			okOrder := true
+			var where ssa.Instruction
+			for _, f := range p.FuncsOfPkg("templater") {
+				var copies []*ssa.Call
+				AllInstrs(f, func(in ssa.Instruction) {
+					if call, ok := in.(*ssa.Call); ok {
+						if sc := call.Call.StaticCallee(); sc != nil {
+							g := sc
+							if sc.Origin() != nil {
+								g = sc.Origin()
+							}
+							if pk := pkgOfFunc(g); pk != nil && pk.Path() == "maps" && g.Name() == "Copy" && len(call.Call.Args) == 2 {
+								copies = append(copies, call)
+							}
+						}
+					}
+				})
+				for _, a := range copies {
+					_, fromParam := stripConv(a.Call.Args[1]).(*ssa.Parameter)
+					if !fromParam {
+						continue
+					}
+					for _, b := range copies {
+						if b == a || stripConv(b.Call.Args[0]) != stripConv(a.Call.Args[0]) {
+							continue
+						}
+						if lf := PathOf(b.Call.Args[1]).LastField(); lf != nil && lf.Pkg() != nil && lf.Pkg().Name() == "templater" {
+							// b copies the engine's own variables into the same map: it must precede a
+							if !DominatesInstr(b, a) {
+								okOrder = false
+								where = b
+							}
+						}
+					}
+				}
+			}
+			pos2 := FirstPos(p, render)
+			if where != nil {
+				pos2 = p.InstrPos(where)
+			}
+			c.Check(okOrder, r4, "local-vars-win", pos2, "per-process variables are copied over the project variables", "the project-level variables are copied into the template data after the process's own variables: a process that redefines a project variable is rendered with the project's value in every templated field")
+		}
 		pos := FirstPos(p, render)
 		if bad != nil {
 			pos = p.InstrPos(bad)
